@@ -52,6 +52,9 @@ CHECKS = {
             {"harness": ["internal/vsess.VerifC12Positions"], "pkgs": ["./internal/vsess"], "fuel": 4000000,
              "params_quick": {"budget": 1, "nops": 3, "leaves": 3, "polykinds": 3, "sandwich": 0}, "params_thorough": {"budget": 1, "nops": 5, "leaves": 4},
              "covers": {"VerifC12Positions": ["value", "runtime-error"]}},
+            {"harness": ["internal/vsess.VerifC12Trees"], "pkgs": ["./internal/vsess"], "fuel": 4000000,
+             "params_quick": {"treeops": 3, "nops": 2}, "params_thorough": {"treeops": 4, "nops": 3},
+             "covers": {"VerifC12Trees": ["value"]}},
             {"harness": ["internal/vsess.VerifC12Increment", "internal/vsess.VerifC12Conditions"], "pkgs": ["./internal/vsess"], "fuel": 4000000,
              "covers": {"VerifC12Increment": ["value", "runtime-error"], "VerifC12Conditions": ["value", "runtime-error"]}},
         ],
